@@ -370,7 +370,7 @@ package registry
 //@   ensures underlying-slice: r <==> isType(v.vr.Type().Underlying(), *types.Slice)
 
 //@ func registry.Var.TypeString -> r
-//@   props C01 C02 C10
+//@   props C01 C02 C10 C11 C20
 //@   safety C19
 //@   requires v.vr != nil
 //@   ensures rendered-by-go-types-with-the-import-aware-qualifier: r == uf("types.TypeString", String, v.vr.Type(), v.vr, v.imports, v.moqPkgPath, v.Name)
